@@ -17,7 +17,7 @@ Pool ==
   ELSE IF PoolName = "texts" THEN
        CharToks(97) \cup CharToks(39) \cup CharToks(10) \cup CharToks(35) \cup CharToks(92)
        \cup StringToks(<<>>) \cup StringToks(<<72, 105>>) \cup StringToks(<<34, 72, 10, 119, 33, 34>>) \cup StringToks(<<97, 32, 37, 32, 98>>)
-       \cup SymbolToks(<<65, 110, 95, 73, 100, 95, 49, 50>>) \cup SymbolToks(<<102, 109>>) \cup SymbolToks(<<65, 32, 34, 99, 34, 32, 105, 100, 33>>) \cup SymbolToks(<<116, 114, 117, 101>>)
+       \cup SymbolToks(<<65, 110, 95, 73, 100, 95, 49, 50>>) \cup SymbolToks(<<102, 109>>) \cup SymbolToks(<<65, 32, 34, 99, 34, 32, 105, 100, 33>>) \cup SymbolToks(<<116, 114, 117, 101>>) \cup SymbolToks(<<105, 110, 102, 111>>) \cup SymbolToks(<<110, 111, 119, 95, 49>>)   \* "true" (quoted only), "info", "now_1": identifiers that begin with a keyword
        \cup KwToks \cup { MidiTok(<<255, 255, 255, 255>>), MidiTok(<<144, 60, 127, 0>>), ColourTok(<<139, 173, 240, 13>>), ColourTok(<<255, 0, 0, 255>>) }
        \cup DateToks(2016, 11, 16) \cup DateToks(2000, 1, 1) \cup DateToks(2017, 3, 22)
   ELSE \* compound forms
